@@ -117,6 +117,7 @@ func (p *parser) parseStatement() ast.Statement {
 		for _, value := range p.scope.labels {
 			if label == value {
 				p.error(identifier.Idx0(), "Label '%s' already exists", label)
+				break // Once: a: a: a: ... would report n*n/2 errors.
 			}
 		}
 		var labelComments []*ast.Comment
